@@ -336,6 +336,75 @@ def prologue(stmts, st, top):
     raise P.Untranslatable("prologue: statement " + U(s0)[:80])
 
 
+def close_clause(stmts):
+    """the CLOSE clause, statement by statement:  count = header;  [if <guard>: raise BananaError];
+    if self.discardCount: self.discardCount -= 1  else: self.handleClose(count);  continue.
+    The guard (a conjunction / disjunction / negation over self.inOpen and self.discardCount; absent = never) becomes a Coq function."""
+    ss = strip(stmts)
+    if not ss or U(ss[0]) != "count = header":
+        raise P.Untranslatable("CLOSE clause does not start with `count = header`")
+    ss = ss[1:]
+
+    def cond(n):
+        u = U(n)
+        if u == "self.inOpen":
+            return "io"
+        if u == "self.discardCount":
+            return "(negb (d =? 0))"
+        if u in ("self.discardCount == 0", "not self.discardCount"):
+            return "(d =? 0)"
+        if u == "self.discardCount > 0":
+            return "(0 <? d)"
+        if isinstance(n, ast.UnaryOp) and isinstance(n.op, ast.Not):
+            return "(negb %s)" % cond(n.operand)
+        if isinstance(n, ast.BoolOp):
+            return "(" + (" && " if isinstance(n.op, ast.And) else " || ").join(cond(v) for v in n.values) + ")"
+        raise P.Untranslatable("CLOSE clause guard: " + u)
+    guard = "false"
+    if len(ss) == 3:
+        g = ss[0]
+        body = strip(g.body) if isinstance(g, ast.If) else []
+        if not (isinstance(g, ast.If) and not g.orelse and len(body) == 1 and isinstance(body[0], ast.Raise) and isinstance(body[0].exc, ast.Call)
+                and U(body[0].exc.func) == "BananaError"):
+            raise P.Untranslatable("CLOSE clause: unexpected statement " + U(g)[:80])
+        guard = cond(g.test)
+        ss = ss[1:]
+    if len(ss) != 2 or not isinstance(ss[1], ast.Continue):
+        raise P.Untranslatable("CLOSE clause: unexpected shape")
+    br = ss[0]
+    if not (isinstance(br, ast.If) and U(br.test) == "self.discardCount" and [U(x) for x in strip(br.body)] == ["self.discardCount -= 1"]
+            and [U(x) for x in strip(br.orelse)] == ["self.handleClose(count)"]):
+        raise P.Untranslatable("CLOSE clause: discard / handleClose branch " + U(br)[:100])
+    return ("(* CLOSE clause: `if <guard>: raise BananaError` in front of the discard / handleClose branch (io = self.inOpen, d = self.discardCount) *)\n"
+            "Definition hd_close_fatal (io : bool) (d : Z) : bool := %s." % guard)
+
+
+def abort_clause(stmts):
+    """the ABORT clause:  count = header;  if rejected: continue;  try: raise Violation(..) except Violation: f = BananaFailure();
+    self.handleViolation(f, "receive-abort"[, inOpen=self.inOpen]);  [self.inOpen = False];  continue.
+    Generated: does an ABORT that arrives in the index phase of an OPEN end that index phase and count the OPEN as discarded?"""
+    ss = strip(stmts)
+    if not ss or U(ss[0]) != "count = header":
+        raise P.Untranslatable("ABORT clause does not start with `count = header`")
+    ss = ss[1:]
+    if not (len(ss) == 3 and isinstance(ss[0], ast.If) and U(ss[0].test) == "rejected" and not ss[0].orelse
+            and [type(x) for x in strip(ss[0].body)] == [ast.Continue] and isinstance(ss[1], ast.Try) and isinstance(ss[2], ast.Continue)):
+        raise P.Untranslatable("ABORT clause: unexpected shape")
+    t = ss[1]
+    if t.orelse or t.finalbody or len(t.handlers) != 1 or U(t.handlers[0].type) != "Violation" or len(strip(t.body)) != 1 \
+            or not isinstance(strip(t.body)[0], ast.Raise) or not U(strip(t.body)[0].exc).startswith("Violation("):
+        raise P.Untranslatable("ABORT clause: try/except shape")
+    hb = [U(x) for x in strip(t.handlers[0].body)]
+    if hb == ["f = BananaFailure()", "self.handleViolation(f, 'receive-abort')"]:
+        flag = "false"
+    elif hb == ["f = BananaFailure()", "self.handleViolation(f, 'receive-abort', inOpen=self.inOpen)", "self.inOpen = False"]:
+        flag = "true"
+    else:
+        raise P.Untranslatable("ABORT clause: handler %r" % hb)
+    return ("(* ABORT clause: `handleViolation(f, 'receive-abort', inOpen=self.inOpen); self.inOpen = False` (true) or the plain call that\n"
+            "   leaves a pending index phase pending (false) *)\nDefinition hd_abort_in_index : bool := %s." % flag)
+
+
 def handle_data(bm, out):
     fn = P.find_def(bm, "Banana.handleData")
     body = strip(fn.body)
@@ -471,6 +540,10 @@ def handle_data(bm, out):
         reads = any(isinstance(n, ast.Call) and U(n.func) == "self.buffer.popleft" for s in stmts for n in ast.walk(s))
         if not reads:
             nobody += names
+            if names == ["CLOSE"]:
+                out.append(close_clause(stmts))
+            if names == ["ABORT"]:
+                out.append(abort_clause(stmts))
             continue
         need, rej, acc, popped = body_clause(names, stmts)
         if popped != need:
